@@ -307,7 +307,7 @@ def rnd_tensor(rng, lib_only=True):
         return Amplitude(name, idx[:n], idx[n:])
     if k < 0.45:     # antisymmetric
         name = rng.choice([tn.eri, tn.fock, tn.operator, tn.gs_density + "2",
-                           "A", "I1", "Zz", "m3x"])
+                           "A", "J1", "Zz", "m3x"])
         nu, nl = rng.choice([(1, 1), (2, 2), (2, 2), (1, 2), (3, 3), (2, 1)])
         idx = rnd_indices(rng, nu + nl, spin)
         if name in (tn.eri, tn.fock) and nu != nl:
@@ -338,7 +338,7 @@ def rnd_tensor(rng, lib_only=True):
         i, j = rnd_indices(rng, 2, spin)
         return KroneckerDelta(i, j)
     if k < 0.94:
-        return Symbol(rng.choice(["x", "y", "c", "Nocc", "z"]))
+        return Symbol(rng.choice(["x", "y", "c", "nocc", "z"]))
     i = rnd_index(rng, spin=spin)
     return rng.choice([F, Fd])(i)
 
@@ -521,6 +521,27 @@ def py_import(s, convert=False):
         return ("raise", type(ex).__name__)
 
 
+def safe(x, n=600):
+    """repr of a value that may hold a sympy object whose printer raises (e.g.
+    a tensor whose name sympify turns into a function such as N or Q)"""
+    try:
+        return repr(x)[:n]
+    except Exception as ex:
+        try:
+            from sympy import srepr
+            return ("<unprintable: " + srepr(x[1] if isinstance(x, tuple)
+                                            else x))[:n] + ">"
+        except Exception:
+            return f"<unprintable {type(x).__name__}: {type(ex).__name__}>"
+
+
+def safe_eq(a, b):
+    try:
+        return bool(a == b)
+    except Exception:
+        return False
+
+
 def py_build(tree):
     try:
         return ("ok", U.build(tree))
@@ -539,6 +560,30 @@ def n_objects(tree):
 
 
 def run(ctx):
+    import glob
+    import os
+    try:
+        _run(ctx)
+    finally:
+        # the per-process case files (see uniq) are not overwritten by the next
+        # run, remove them
+        gen = os.path.join(os.path.dirname(os.path.dirname(os.path.dirname(
+            os.path.abspath(__file__)))), "coq", "gen")
+        for f in glob.glob(os.path.join(
+                gen, f"C18_*_s{ctx.seed}_p{os.getpid()}_*.v")):
+            try:
+                os.remove(f)
+            except OSError:
+                pass
+
+
+def _run(ctx):
+    import os
+    global uniq
+
+    def uniq(tag):
+        # concurrent runs (seed sweeps) share coq/gen: one file name per process
+        return f"{tag}_s{ctx.seed}_p{os.getpid()}"
     rng = ctx.rng
     quick = ctx.tier == "quick"
     imp = importer()
@@ -548,7 +593,7 @@ def run(ctx):
     defs = f"Definition cfg := {names_lit}.\n"
 
     # D: the default names of the model are those of the implementation
-    vals, _ = ctx.coq_eval("names", [
+    vals, _ = ctx.coq_eval(uniq("names"), [
         f"str_eqb_names default_names {U.coq_names(dfl)}"], header=U.COQ_HEADER,
         defs="Definition str_eqb_names a b := forallb (fun p => str_eqb (fst p) "
              "(snd p)) (combine (fields a) (fields b)).\n")
@@ -618,7 +663,7 @@ def run(ctx):
             found = True
             try:
                 pr = EQ.Pair(E, R, targets_of(E, c["label"]), c["label"])
-                EQ.run_pairs(ctx, "collide", [pr], search=True)
+                EQ.run_pairs(ctx, uniq("collide"), [pr], search=True)
                 rep["value check"] = {"check_equiv": pr.ok,
                                       "difference": pr.diff, "err": pr.err}
                 found = pr.ok is False
@@ -646,7 +691,7 @@ def run(ctx):
 
     # same classes but not syntactically equal: value via the verified validator
     if pairs:
-        EQ.run_pairs(ctx, "value", [p for _, p in pairs], shard=30,
+        EQ.run_pairs(ctx, uniq("value"), [p for _, p in pairs], shard=30,
                      search=False)
         for c, p in pairs:
             if p.ok is False and len(S(c["E"].sympy).atoms(
@@ -684,7 +729,7 @@ def run(ctx):
              [(s, True, "convert") for s in conv_strings]
     coq_cases = [f"show_result (import_model cfg {'true' if cv else 'false'} "
                  f"{U.coq_str(s)})" for s, cv, _ in all_in]
-    vals, errs = ctx.coq_eval("import", coq_cases, header=U.COQ_HEADER,
+    vals, errs = ctx.coq_eval(uniq("import"), coq_cases, header=U.COQ_HEADER,
                               defs=defs, shard=120)
     n_agree = 0
     dist_m = {"valid": 0, "malformed-raise": 0, "malformed-ok": 0, "convert": 0}
@@ -697,15 +742,15 @@ def run(ctx):
         py = py_import(s, cv)
         if tree is None:
             ok = py[0] == "raise"
-            detail = f"model raises, implementation returns {py[1]!r}"[:400]
+            detail = f"model raises, implementation returns {safe(py[1], 400)}"
         else:
             b = py_build(tree)
             if py[0] == "ok":
-                ok = b[0] == "ok" and b[1] == py[1]
+                ok = b[0] == "ok" and safe_eq(b[1], py[1])
             else:
                 # the parse succeeds, a sympy constructor raises
                 ok = b[0] == "raise" and b[1] == py[1]
-            detail = f"model {b!r} vs implementation {py!r}"[:600]
+            detail = f"model {safe(b)} vs implementation {safe(py)}"
         if kind == "malformed":
             dist_m["malformed-ok" if py[0] == "ok" else "malformed-raise"] += 1
         else:
@@ -742,7 +787,7 @@ def run(ctx):
         d2 = f"Definition cfg := {U.coq_names(cfg2)}.\n"
         cc = [(x, cv) for x in sample for cv in (False, True)]
         vals2, errs2 = ctx.coq_eval(
-            f"names_{tag}", [f"show_result (import_model cfg "
+            uniq(f"names_{tag}"), [f"show_result (import_model cfg "
                              f"{'true' if cv else 'false'} {U.coq_str(x)})"
                              for x, cv in cc], header=U.COQ_HEADER, defs=d2,
             shard=120)
@@ -756,11 +801,11 @@ def run(ctx):
                 py = py_import(x, cv)
                 if tree is None:
                     ok = py[0] == "raise"
-                    detail = f"model raises, implementation {py!r}"[:400]
+                    detail = f"model raises, implementation {safe(py, 400)}"
                 else:
                     b = py_build(tree)
-                    ok = (b[0] == py[0]) and b[1] == py[1]
-                    detail = f"model {b!r} vs implementation {py!r}"[:600]
+                    ok = (b[0] == py[0]) and safe_eq(b[1], py[1])
+                    detail = f"model {safe(b)} vs implementation {safe(py)}"
                 ctx.case(key=("names", tag, x, cv), nontrivial=True,
                          kind=f"import:names-{tag}")
                 if not ctx.obligation(f"importer = model [names {tag}, "
@@ -801,7 +846,7 @@ def run(ctx):
         "(forget c e)) | None => false end.\n"
         "Definition kinds_check c s a e := String.eqb (show_expr (reapply s a "
         "(forget c e))) (show_expr e).\n")
-    vals, errs = ctx.coq_eval("print", pcases, header=U.COQ_HEADER, defs=pdefs,
+    vals, errs = ctx.coq_eval(uniq("print"), pcases, header=U.COQ_HEADER, defs=pdefs,
                               shard=160)
     n_wf = 0
     not_wf = []
